@@ -170,6 +170,54 @@ def expr_cases(e: ast.AST):
     return [(g, a["x"]) for g, a in _split_cases({"x": e})]
 
 
+def canonical_value(func_node: ast.AST, expr: ast.AST) -> str:
+    """Canonical text of the value `expr` has in `func_node`: accumulator loops are read as comprehensions, locals and self
+    attributes that are assigned exactly once in the function are replaced by their definition, then sa.mir.canon_expr."""
+    from sa.mir import comprehensionise, canon_expr
+    body = comprehensionise(func_node.body)
+    mod = ast.Module(body=body, type_ignores=[])
+    defs: Dict[str, ast.AST] = {}
+    counts: Dict[str, int] = {}
+    for n in walk_no_nested(mod):
+        if isinstance(n, ast.Assign):
+            for t in n.targets:
+                d = dotted(t)
+                if d and (d.count(".") == 0 or (d.startswith("self.") and d.count(".") == 1)):
+                    counts[d] = counts.get(d, 0) + 1
+                    defs[d] = n.value
+                else:
+                    for x in ast.walk(t):
+                        dd = dotted(x) if isinstance(x, (ast.Name, ast.Attribute)) else None
+                        if dd:
+                            counts[dd] = counts.get(dd, 0) + 2
+        elif isinstance(n, (ast.AugAssign, ast.AnnAssign)):
+            dd = dotted(n.target)
+            if dd:
+                counts[dd] = counts.get(dd, 0) + 2
+        elif isinstance(n, (ast.For, ast.comprehension)):
+            for x in ast.walk(n.target):
+                if isinstance(x, ast.Name):
+                    counts[x.id] = counts.get(x.id, 0) + 2
+    for a in getattr(func_node, "args", None).args if hasattr(func_node, "args") else []:
+        counts[a.arg] = counts.get(a.arg, 0) + 2
+    defs = {k: v for k, v in defs.items() if counts.get(k) == 1}
+
+    import copy
+    x = expr
+    for _ in range(4):
+        d = dotted(x)
+        if d in defs:
+            x = defs[d]
+        else:
+            break
+    return norm(canon_expr(copy.deepcopy(x)))
+
+
+def canonical_text(src: str) -> str:
+    from sa.mir import canon_expr
+    return norm(canon_expr(ast.parse(src, mode="eval").body))
+
+
 def find_for_loops(func: ast.AST) -> List[ast.For]:
     return [n for n in walk_no_nested(func) if isinstance(n, ast.For)]
 
